@@ -3,13 +3,13 @@ CONSTANTS
   SLt <- SLtL
   Close <- CloseL
   Bigger <- BiggerL
-  L = 5
-  Dim = 1
+  L = 3
+  Dim = 3
   Periodic = TRUE
-  OpenAxes = {}
-  Radii = {1, 2, 3}
-  MaxN = 4
-  M <- Neg2
+  OpenAxes = {1, 3}
+  Radii = {1, 2}
+  MaxN = 3
+  M = 0
 INVARIANT Subsequence
 INVARIANT InRange
 INVARIANT Separated
